@@ -60,7 +60,7 @@ pub fn workload_query(w: &str, size: u64) -> String {
 /// (suspended goals, attributed variables inside an open call_residue_vars/2, a backtrackable
 /// global variable) is used after it; `K` collects what the later goals computed and does not
 /// depend on the workload.
-pub const CONTINUATIONS: &[&str] = &["c31_resid", "c31_after"];
+pub const CONTINUATIONS: &[&str] = &["c31_resid", "c31_after", "c31_attcopy"];
 
 pub fn continuation_query(c: &str, w: &str, size: u64) -> String {
     format!("{}({}, B, K).", c, workloads::goal(w, size).replace(", R)", ", _)"))
